@@ -286,6 +286,9 @@ class Report:
         os.makedirs(os.path.join(VERIF, "evidence"), exist_ok=True)
         lines = []
         new = []
+        for f in os.listdir(os.path.join(VERIF, "replay")):        # replays of earlier runs of this property
+            if re.fullmatch(re.escape(self.prop) + r"-(\d+|unproved)\.json", f):
+                os.remove(os.path.join(VERIF, "replay", f))
         for sig, what, replay in self.violations:
             hit = [k for k in known if k[0] == sig]
             if hit:
